@@ -6,11 +6,11 @@ CONSTANTS Depth, MaxInst
 VARIABLE hist
 vars == <<heap, objs, next, hist>>
 
-\* T: cells 1..12   target X8_01 (shots=10, flags=[1, 2]) ; G({a}) | 0 ; Vac | 1 ; K(l=[1, 2]) | 0 ; variables M = [[{b}, 2]], v = {b}
-\* P: cells 13..19  Vac | 0 ; H(5, 2*q0) | 1 ; variable N = [[3, 4]]
-InitHeap == [c \in 1..19 |->
+\* T: cells 1..13   target X8_01 (shots=10, flags=[1, 2]) ; G({a}, 2*q1) | 0 ; Vac | 1 ; K(l=[1, 2]) | 0 ; variables M = [[{b}, 2]], v = {b}
+\* P: cells 14..20  Vac | 0 ; H(5, 2*q0) | 1 ; variable N = [[3, 4]]
+InitHeap == [c \in 1..20 |->
   CASE c = 1 -> [k |-> "op", name |-> "G", hasargs |-> TRUE, args |-> 2, kw |-> 3, modes |-> <<0>>]
-    [] c = 2 -> [k |-> "list", xs |-> <<SymP("a")>>]
+    [] c = 2 -> [k |-> "list", xs |-> <<SymP("a"), Ref(13)>>]
     [] c = 3 -> [k |-> "dict", items |-> <<>>]
     [] c = 4 -> [k |-> "op", name |-> "Vac", hasargs |-> FALSE, args |-> 0, kw |-> 0, modes |-> <<1>>]
     [] c = 5 -> [k |-> "op", name |-> "K", hasargs |-> TRUE, args |-> 6, kw |-> 7, modes |-> <<0>>]
@@ -21,16 +21,17 @@ InitHeap == [c \in 1..19 |->
     [] c = 10 -> [k |-> "arr", rows |-> << <<SymP("b"), Num(2)>> >>]
     [] c = 11 -> [k |-> "dict", items |-> <<[key |-> "shots", v |-> Num(10)], [key |-> "flags", v |-> Ref(12)]>>]  \* target options of T
     [] c = 12 -> [k |-> "list", xs |-> <<Num(1), Num(2)>>]
-    [] c = 13 -> [k |-> "op", name |-> "Vac", hasargs |-> FALSE, args |-> 0, kw |-> 0, modes |-> <<0>>]
-    [] c = 14 -> [k |-> "op", name |-> "H", hasargs |-> TRUE, args |-> 15, kw |-> 16, modes |-> <<1>>]
-    [] c = 15 -> [k |-> "list", xs |-> <<Num(5), [k |-> "rrt", r |-> 0]>>]        \* H(5, 2*q0) | 1 : a measured-register argument
-    [] c = 16 -> [k |-> "dict", items |-> <<>>]
-    [] c = 17 -> [k |-> "dict", items |-> <<[key |-> "N", v |-> Ref(18)]>>]                                        \* variables of P
-    [] c = 18 -> [k |-> "arr", rows |-> << <<Num(3), Num(4)>> >>]
-    [] c = 19 -> [k |-> "dict", items |-> <<>>]]                                                                     \* target options of P
-InitObjs == [n \in {"T", "P"} |-> IF n = "T" THEN [kind |-> "template", lo |-> 1, hi |-> 12, ops |-> <<1, 4, 5>>, vars |-> 9, opts |-> 11, params |-> {"a", "b"}]
-                                             ELSE [kind |-> "program", lo |-> 13, hi |-> 19, ops |-> <<13, 14>>, vars |-> 17, opts |-> 19, params |-> {}]]
-Init == heap = InitHeap /\ objs = InitObjs /\ next = 20 /\ hist = <<>>
+    [] c = 13 -> [k |-> "rrt", regs |-> <<1>>]                                       \* the transform 2*q1 of G's second argument
+    [] c = 14 -> [k |-> "op", name |-> "Vac", hasargs |-> FALSE, args |-> 0, kw |-> 0, modes |-> <<0>>]
+    [] c = 15 -> [k |-> "op", name |-> "H", hasargs |-> TRUE, args |-> 16, kw |-> 17, modes |-> <<1>>]
+    [] c = 16 -> [k |-> "list", xs |-> <<Num(5), [k |-> "rrt", r |-> 0]>>]        \* H(5, 2*q0) | 1 : a measured-register argument
+    [] c = 17 -> [k |-> "dict", items |-> <<>>]
+    [] c = 18 -> [k |-> "dict", items |-> <<[key |-> "N", v |-> Ref(19)]>>]                                        \* variables of P
+    [] c = 19 -> [k |-> "arr", rows |-> << <<Num(3), Num(4)>> >>]
+    [] c = 20 -> [k |-> "dict", items |-> <<>>]]                                                                     \* target options of P
+InitObjs == [n \in {"T", "P"} |-> IF n = "T" THEN [kind |-> "template", lo |-> 1, hi |-> 13, ops |-> <<1, 4, 5>>, vars |-> 9, opts |-> 11, params |-> {"a", "b"}]
+                                             ELSE [kind |-> "program", lo |-> 14, hi |-> 20, ops |-> <<14, 15>>, vars |-> 18, opts |-> 20, params |-> {}]]
+Init == heap = InitHeap /\ objs = InitObjs /\ next = 21 /\ hist = <<>>
 InstNames == {"I1", "I2", "I3"}
 Envs == {[p \in {"a", "b"} |-> IF p = "a" THEN 3 ELSE 8], [p \in {"a", "b"} |-> IF p = "a" THEN -1 ELSE 4]}
 NInst == Cardinality(DOMAIN objs \cap InstNames)
@@ -43,7 +44,7 @@ Next == Len(hist) < Depth /\
   \/ \E p \in DOMAIN objs : Match("T", p) /\ Log([act |-> "match", t |-> "T", p |-> p])
   \/ \E env \in Envs : NInst < MaxInst /\ LET new == IF NInst = 0 THEN "I1" ELSE IF NInst = 1 THEN "I2" ELSE "I3"
                                           IN Call("T", env, new) /\ Log([act |-> "call", t |-> "T", env |-> env, new |-> new])
-  \/ \E o \in (DOMAIN objs) \cap InstNames, k \in {"append_arg", "set_kw", "array_elem", "set_var", "rename_op", "set_option", "append_option_list"}, i \in 1..3 :
+  \/ \E o \in (DOMAIN objs) \cap InstNames, k \in {"append_arg", "set_kw", "array_elem", "set_var", "rename_op", "set_option", "append_option_list", "rrt_regref"}, i \in 1..3 :
          Mutate(o, k, i) /\ Log([act |-> "mutate", o |-> o, kind |-> k, i |-> i])
 \* ---- the property
 Pure == [][\A o \in DOMAIN objs : (hist' # hist /\ ReadOnly(hist'[Len(hist')])) => Content(heap', objs'[o]) = Content(heap, objs[o])]_vars
